@@ -10,7 +10,7 @@ common.ensure_impl_python()
 import spydrnet as sdn
 from spydrnet.util.hierarchical_reference import HRef
 import hier_world as hw
-import hier_gen, hier_oracles, ir_run
+import hier_gen, hier_oracles, ir_run, coq_eval
 from ir_world import World
 
 UNREF_SIG = 'C11|hrefs_of_item|instance-without-reference|empty'
@@ -19,6 +19,9 @@ SELS = ['ALL', 'INSIDE', 'OUTSIDE', 'BOTH']
 COQ_FILES = ['Hier/Paths', 'Hier/Enum', 'Hier/Trace', 'Hier/Conn', 'Proofs/HierValid', 'Proofs/HierEnum',
              'Proofs/HierClosure', 'Proofs/HierC11', 'Proofs/HierTrace', 'Proofs/HierNarrow', 'Proofs/HierTraceEx',
              'Props/C11', 'Props/C12', 'Extract/ExtractHier']
+# extraction/driver cross-check against `Eval vm_compute` (harness/coq_eval.py): sessions per run, queries kept per session
+XCHECK = {'quick': 40, 'thorough': 400}
+XCHECK_QUERIES = 12
 BUDGET = {('C11', 'quick'): 110, ('C11', 'thorough'): 6000, ('C12', 'quick'): 140, ('C12', 'thorough'): 6000}
 
 
@@ -538,6 +541,9 @@ def run(prop, tier, seed, replay):
     rep = common.Reporter(prop)
     known = common.load_known_findings(prop)
     if replay:
+        rc = coq_eval.replay(prop, json.load(open(replay)), replay)
+        if rc is not None:
+            return rc
         m = hw.Model()
         try:
             case = load_case(json.load(open(replay)))
@@ -573,6 +579,19 @@ def run(prop, tier, seed, replay):
     labels = collections.Counter()
     seen_sigs = {}
     known_seen = {}
+    # sample for the extraction cross-check: the lines this run sends to the driver (every op, some of the queries)
+    # and the answers it gets, for the corpus cases and for every stride-th generated case
+    xc_sessions, xc_recorded, xc_names = [], [], []
+    xc_want = XCHECK[tier]
+    xc_stride = max(1, ncases // xc_want)
+
+    def xc_take(name):
+        rec, m.rec = m.rec, None
+        s_, a_ = coq_eval.sample_session(rec or [], XCHECK_QUERIES, random.Random('%d/xcheck/%s' % (seed, name)))
+        if s_:
+            xc_sessions.append(s_)
+            xc_recorded.append(a_)
+            xc_names.append(name)
 
     def handle(source, case, P):
         for p in P:
@@ -617,7 +636,9 @@ def run(prop, tier, seed, replay):
             if obj.get('property') not in (prop, 'both'):
                 continue
             case = load_case(obj)
+            m.rec = []
             P = run_case(prop, case, random.Random('%d/corpus/%s' % (seed, fn)), stats, m)
+            xc_take('corpus-' + fn[:-5])
             programs += 1
             labels['corpus'] += 1
             handle('corpus-' + fn[:-5], case, P)
@@ -629,7 +650,12 @@ def run(prop, tier, seed, replay):
             case = gen_case(prop, seed, c)
             rng = random.Random('%d/hier/%s/%d/q' % (seed, prop, c))
             before = len(stats['paths'])
+            xc_this = c % xc_stride == 0 and len(xc_sessions) < xc_want
+            if xc_this:
+                m.rec = []
             P = run_case(prop, case, rng, stats, m)
+            if xc_this:
+                xc_take('gen-%d-%d' % (seed, c))
             programs += 1
             labels[case['label']] += 1
             hsh = common.sha(json.dumps(case['ops']))
@@ -647,6 +673,13 @@ def run(prop, tier, seed, replay):
     for kid, (cnt, k) in known_seen.items():
         rep.known_finding('%s: %s (%d occurrences this run)' % (kid, k.get('what'), cnt))
 
+    # extraction + driver glue cross-checked against the kernel's evaluator on the sampled sessions
+    xc_res = coq_eval.check_hier(xc_sessions, xc_recorded)
+    for mm in xc_res['mismatches']:
+        if mm.get('case') is not None:
+            mm['source'] = xc_names[mm['case']]
+    xc_ev = coq_eval.report(rep, prop, 'hier', xc_res)
+
     wall = time.time() - t0
     theorems = proof['theorems']
     lists = {k: stats.pop(k, []) for k in ('paths', 'class-size', 'class-levels', 'answer-size')}
@@ -654,7 +687,8 @@ def run(prop, tier, seed, replay):
     coverage = {
         'obligations': len(theorems), 'discharged': len(theorems) if (ok and proof['ok']) else 0,
         'checker_cmd': proof['cmd'] + '   (after building coq/theories/Hier/*.v, Proofs/Hier*.v in dependency order)',
-        'trusted_base': trusted_base(proof),
+        'trusted_base': trusted_base(proof, xc_ev),
+        'extraction_crosscheck': xc_ev,
         'theorems': theorems,
         'print_assumptions': proof['assumptions'][-3000:],
         'programs': programs,
@@ -682,8 +716,10 @@ def run(prop, tier, seed, replay):
         coverage['histogram_answer_size'] = hist(lists['answer-size'], [0, 1, 2, 3, 5, 10, 20, 50])
     common.write_evidence(prop, tier, seed, coverage, wall, len(rep.violations), assumptions(prop))
     print('%s %s: %d netlists (%d non-trivial), %d evaluations, %d model/impl disagreements, %d oracle failures, '
-          'proof %s (%d theorems), %.1fs' % (prop, tier, programs, nontrivial, evaluations, counts['corr'], counts['oracle'],
-                                             'ok' if (ok and proof['ok']) else 'BROKEN', len(theorems), wall))
+          'proof %s (%d theorems), extraction cross-check %d sessions (%d queries) / %d mismatches (%.1fs), %.1fs' % (
+              prop, tier, programs, nontrivial, evaluations, counts['corr'], counts['oracle'],
+              'ok' if (ok and proof['ok']) else 'BROKEN', len(theorems), xc_ev['cases'], xc_ev.get('queries', 0), xc_ev['mismatches'],
+              xc_ev['wall_s'], wall))
     return rep.exit_code()
 
 
@@ -718,9 +754,10 @@ def search_failure(prop, small, seed, m, known):
     return None
 
 
-def trusted_base(proof):
+def trusted_base(proof, xc_ev=None):
     return [
-        'Coq 8.16.1 kernel (coqc); vm_compute only inside Example witnesses; no native_compute',
+        coq_eval.trusted_base_line('hier', xc_ev),
+        'Coq 8.16.1 kernel (coqc); vm_compute only inside Example witnesses and in the extraction cross-check; no native_compute',
         'Print Assumptions of every theorem in Props/: ' + ('Closed under the global context' if 'Axioms' not in proof['assumptions'] else 'see print_assumptions'),
         'extraction: ExtrOcamlBasic only; nat/N/Z/positive extracted as inductives; no Extract Constant',
         'ocaml/driver_hier.ml (op parser copied from driver_ir.ml, query parser, printing, memoisation of the state maps)',
